@@ -56,6 +56,9 @@ VAL_ONLY = [("materialize_c", 2), ("dao_c", 2), ("into_variant_c", 1)]
 VOID_ONLY = [("repeat_effect_until", 2)]
 
 
+LVALUE_OK = {"then", "upon_error", "upon_done", "with_query", "unstoppable", "demat", "sequence", "finally", "via"}
+
+
 def pick(rng, table):
     tot = sum(w for _, w in table)
     r = rng.random() * tot
@@ -146,6 +149,10 @@ class Gen:
             return self.terminal(vt)
         table = list(UNARY) + list(NARY) + (VAL_ONLY if vt == "val" else VOID_ONLY)
         table = self.allowed(table) or table
+        if self.in_loop:
+            # retry_when / repeat_effect_until connect their source as an lvalue, which only some
+            # adaptors support: stay within a set known to be lvalue-connectable
+            table = [(k, w) for k, w in table if k in LVALUE_OK] or [("then", 1)]
         k = pick(self.rng, table)
         d = depth - 1
         E = self.expr
@@ -224,7 +231,10 @@ class Gen:
             return {"op": "then", "kid": {"op": "into_variant", "kid": E(self.rng.choice(["val", "void"]), d)},
                     "fn": self.fn_id(), "ret": "val"}
         if k == "repeat_effect_until":
-            return {"op": "repeat_effect_until", "kid": E("void", d), "fn": self.fn_id(),
+            self.in_loop += 1
+            src = E("void", d)
+            self.in_loop -= 1
+            return {"op": "repeat_effect_until", "kid": src, "fn": self.fn_id(),
                     "until": self.rng.choice([1, 2, 3])}
         raise AssertionError(k)
 
